@@ -402,7 +402,7 @@ func ruleS3(r *Run) {
 					nObj = identObj(info, as.Lhs[0])
 				}
 			}
-			if f := Callee(info, call); f != nil && f.Name() == "parseHeader" {
+			if f := Callee(info, call); f != nil && refName(f.Name()) == "parseHeader" {
 				lenObj = identObj(info, as.Lhs[0])
 			}
 			return true
@@ -627,7 +627,7 @@ func ruleS4(r *Run) {
 		ast.Inspect(fd.Body, func(n ast.Node) bool {
 			if as, ok := n.(*ast.AssignStmt); ok && len(as.Rhs) == 1 {
 				if call, ok := ast.Unparen(as.Rhs[0]).(*ast.CallExpr); ok {
-					if f := Callee(info, call); f != nil && f.Name() == "parseHeader" {
+					if f := Callee(info, call); f != nil && refName(f.Name()) == "parseHeader" {
 						callPos = call.End()
 						for _, l := range as.Lhs {
 							res = append(res, identObj(info, l))
